@@ -17,6 +17,9 @@ ROOT = os.path.dirname(os.path.dirname(os.path.dirname(os.path.abspath(__file__)
 REPO = os.environ.get("VERIF_REPO", "/repo")
 PY = os.environ.get("VERIF_PY", "/venv/bin/python")
 NPROC = int(os.environ.get("VERIF_JOBS", str(os.cpu_count() or 4)))
+# where evidence/, replays/ and .work/ go; only the self-test on seeded mutations redirects it (so that a run against a
+# deliberately broken scratch tree never overwrites the evidence of the real tree)
+OUT = os.environ.get("VERIF_OUT", ROOT)
 
 
 def child_env(extra=None):
@@ -70,10 +73,10 @@ def main(argv=None):
     seed = int(os.environ.get("VERIF_SEED", "0"))
     mod = load_prop(pid)
     t0 = time.time()
-    workdir = os.path.join(ROOT, ".work", pid)
+    workdir = os.path.join(OUT, ".work", pid)
     os.makedirs(workdir, exist_ok=True)
-    os.makedirs(os.path.join(ROOT, "evidence"), exist_ok=True)
-    os.makedirs(os.path.join(ROOT, "replays"), exist_ok=True)
+    os.makedirs(os.path.join(OUT, "evidence"), exist_ok=True)
+    os.makedirs(os.path.join(OUT, "replays"), exist_ok=True)
 
     if a.replay:
         with open(a.replay) as f:
@@ -150,7 +153,7 @@ def main(argv=None):
     seen_paths = set()
     for w in total.violations:
         name = f"{pid}-{h64(w)}.json"
-        path = os.path.join(ROOT, "replays", name)
+        path = os.path.join(OUT, "replays", name)
         if path not in seen_paths:
             seen_paths.add(path)
             with open(path, "w") as f:
@@ -200,7 +203,7 @@ def write_evidence(mod, pid, tier, seed, total: Result, extra, wall, shard_times
         "wall_s": round(wall, 2),
         "violations": int(total.nviol),
     }
-    path = os.path.join(ROOT, "evidence", f"{pid}.json")
+    path = os.path.join(OUT, "evidence", f"{pid}.json")
     tmp = path + ".tmp"
     with open(tmp, "w") as f:
         json.dump(ev, f, indent=1, default=repr)
